@@ -6,6 +6,7 @@ Run:  PYTHONPATH=/repo /venv/bin/python impl_tables.py OUT.json
 Kept dumb on purpose: attribute reads of live objects only, each row under try/except so that a
 broken row becomes an explicit {"broken": "..."} entry instead of crashing the extractor.
 """
+import os
 import sys, json, io, contextlib, warnings, os
 warnings.simplefilter('ignore')
 
@@ -94,6 +95,9 @@ def main(out_path):
     # ---- attribute tables -------------------------------------------------------------------
     ctypes = [c for n, c in vars(CT).items() if isinstance(c, type) and issubclass(c, CT.XSDComplexType)
               and c is not CT.XSDComplexType]
+    if os.environ.get('MXV_ORDER') == 'reverse':
+        # second extraction in the opposite order of first use: lazily built class-level tables must not depend on it
+        ctypes = list(reversed(ctypes))
     attrs = {}
     for T in ctypes:
         rows = []
@@ -120,7 +124,7 @@ def main(out_path):
                              'mro': [b.__name__ for b in T.__mro__ if b.__name__.startswith('XSD')]}
     out['complex_types'] = attrs
     groups = {}
-    for n, G in vars(AT).items():
+    for n, G in (list(reversed(list(vars(AT).items()))) if os.environ.get('MXV_ORDER') == 'reverse' else list(vars(AT).items())):
         if isinstance(G, type) and issubclass(G, AT.XSDAttributeGroup) and G is not AT.XSDAttributeGroup:
             rows = []
             try:
